@@ -372,18 +372,19 @@ End Parser.
 Record tstate := mkT {
   t_input : option (list N); t_pos : nat * nat * nat (* index, line, column *); t_lineStart : nat * nat * nat;
   t_lineStarts : list nat; t_line : nat; t_keywords : nat (* identity of the keyword set *); t_dialect : nat;
-  t_logger : bool; t_comments : list nat; t_configured : bool }.
+  t_logger : bool; t_comments : list nat; t_configured : bool;
+  t_loc : option (nat * nat * nat) (* resume point of toSQLPosition: index, line index, column; None = invalid *) }.
 Definition DEFAULT_DIALECT := 1.      (* "postgresql" *)
 Definition DEFAULT_KEYWORDS := 0.     (* keywords.NewKeywords() *)
-Definition fresh_t : tstate := mkT None (0, 1, 1) (0, 0, 0) [0] 0 DEFAULT_KEYWORDS DEFAULT_DIALECT false [] false.
+Definition fresh_t : tstate := mkT None (0, 1, 1) (0, 0, 0) [0] 0 DEFAULT_KEYWORDS DEFAULT_DIALECT false [] false None.
 
-Inductive tfield := TInput | TPos | TLineStart | TLineStarts | TLine | TKeywords | TDialect | TLogger | TConfigured | TComments.
-Definition all_tfields := [TInput; TPos; TLineStart; TLineStarts; TLine; TKeywords; TDialect; TLogger; TConfigured; TComments].
+Inductive tfield := TInput | TPos | TLineStart | TLineStarts | TLine | TKeywords | TDialect | TLogger | TConfigured | TLoc | TComments.
+Definition all_tfields := [TInput; TPos; TLineStart; TLineStarts; TLine; TKeywords; TDialect; TLogger; TConfigured; TLoc; TComments].
 Definition tfield_name (f : tfield) : String.string :=
   match f with
   | TInput => "input" | TPos => "pos" | TLineStart => "lineStart" | TLineStarts => "lineStarts" | TLine => "line"
   | TKeywords => "keywords" | TDialect => "dialect" | TLogger => "logger" | TComments => "Comments"
-  | TConfigured => "configured"
+  | TConfigured => "configured" | TLoc => "loc"
   end%string.
 Definition tfeq (f : tfield) (a b : tstate) : Prop :=
   match f with
@@ -391,7 +392,7 @@ Definition tfeq (f : tfield) (a b : tstate) : Prop :=
   | TLineStarts => t_lineStarts a = t_lineStarts b | TLine => t_line a = t_line b
   | TKeywords => t_keywords a = t_keywords b | TDialect => t_dialect a = t_dialect b
   | TLogger => t_logger a = t_logger b | TComments => t_comments a = t_comments b
-  | TConfigured => t_configured a = t_configured b
+  | TConfigured => t_configured a = t_configured b | TLoc => t_loc a = t_loc b
   end.
 
 Inductive top :=
@@ -427,12 +428,12 @@ Section Tokenizer.
   Variable kw_of_dialect : nat -> nat.     (* keywords.New(dialect, true): a different keyword set per dialect, never the default one *)
 
   Definition t_reset (s : tstate) : tstate :=
-    mkT None (0, 1, 1) (0, 0, 0) [0] 0 (t_keywords s) (t_dialect s) false [] (t_configured s).
+    mkT None (0, 1, 1) (0, 0, 0) [0] 0 (t_keywords s) (t_dialect s) false [] (t_configured s) None.
 
   Definition tokenize (c : option cx) (x : tin) (s : tstate) : tstate * tresult :=
     let s0 := t_reset s in
     let '(r, cms, pos, ls) := LEX c (ti_input x) in
-    (mkT (Some (ti_input x)) pos (0, 0, 0) ls 0 (t_keywords s0) (t_dialect s0) false cms (t_configured s0), (r, cms)).
+    (mkT (Some (ti_input x)) pos (0, 0, 0) ls 0 (t_keywords s0) (t_dialect s0) false cms (t_configured s0) (Some pos), (r, cms)).
 
   Definition early (s : tstate) (code : nat) : tstate * tresult :=
     if td_early_return_keeps_comments D then (s, (code, t_comments s))
@@ -446,15 +447,15 @@ Section Tokenizer.
         else if ti_too_large x then early s 1 else tokenize (Some (ti_ctx x)) x s
     | OSetDialect =>
         (mkT (t_input s) (t_pos s) (t_lineStart s) (t_lineStarts s) (t_line s) (kw_of_dialect (ti_dialect x))
-             (ti_dialect x) (t_logger s) (t_comments s) true, (0, []))
+             (ti_dialect x) (t_logger s) (t_comments s) true (t_loc s), (0, []))
     | OSetLogger =>
         (mkT (t_input s) (t_pos s) (t_lineStart s) (t_lineStarts s) (t_line s) (t_keywords s) (t_dialect s)
-             (ti_logger x) (t_comments s) (t_configured s), (0, []))
+             (ti_logger x) (t_comments s) (t_configured s) (t_loc s), (0, []))
     | OTReset => (t_reset s, (0, []))
     | OTPutGet =>
         let s0 := t_reset s in
         if td_put_keeps_dialect D then (s0, (0, []))
-        else (mkT None (0, 1, 1) (0, 0, 0) [0] 0 DEFAULT_KEYWORDS DEFAULT_DIALECT false [] false, (0, []))
+        else (mkT None (0, 1, 1) (0, 0, 0) [0] 0 DEFAULT_KEYWORDS DEFAULT_DIALECT false [] false None, (0, []))
     end.
 
   Definition tkind (o : top) : okind :=
